@@ -21,7 +21,7 @@ import fieldutil as F
 import implutil as U
 
 STATIC = ["Model/Sev.vo", "Model/Eject.vo"]
-EXTRA_PROPS = ["RK", "C18b"]
+EXTRA_PROPS = ["RK", "C18b", "C18c", "C18d"]
 
 # numeric literals that the models account for, per function
 KNOWN = {
@@ -29,7 +29,25 @@ KNOWN = {
     "EvolvedMF._derivs_esc": {1: 6, 1.5: 1, 2: 1, 2.5: 2, 0: 6, 0.5: 2, -0.5: 3},
     "EvolvedMF._dyn_eject_BH": {0: 5, 1: 2},
     "EvolvedMFWithBH._dyn_eject_BH": {1: 2, 0: 3, 2: 1},
+    "EvolvedMF._derivs": {1: 1, 0: 1},
 }
+# where the one absolute number of objects (Nmin) is consulted: function -> number of references
+KNOWN_NMIN = {"EvolvedMF.M": 2, "EvolvedMF.N": 2, "EvolvedMF.bin_widths": 2, "EvolvedMF.types": 2, "EvolvedMF.nms": 1, "EvolvedMF.nmr": 1,
+              "EvolvedMF.__init__": 1, "EvolvedMF._derivs_sev": 1, "EvolvedMF._evolve": 1}
+
+
+def nmin_inventory():
+    tree = ast.parse(open(os.path.join(C.REPO, "ssptools", "evolve_mf.py")).read())
+    inv = {}
+    for cls in tree.body:
+        if isinstance(cls, ast.ClassDef):
+            for fn in ast.walk(cls):
+                if isinstance(fn, ast.FunctionDef):
+                    n = sum(1 for x in ast.walk(fn) if (isinstance(x, ast.Attribute) and x.attr == "Nmin") or
+                            (isinstance(x, ast.Name) and x.id == "Nmin"))
+                    if n:
+                        inv["%s.%s" % (cls.name, fn.name)] = n
+    return inv
 
 
 def literal_inventory():
@@ -66,6 +84,10 @@ def run(chk):
             unknown[k] = extra
     chk.oblige("[gen] every numeric literal in _derivs_sev / _derivs_esc / _dyn_eject_BH is one the models account for "
                "(an added absolute threshold or constant is a broken tie)", not unknown and set(inv) == set(KNOWN), str(unknown or inv.keys()))
+    ninv = nmin_inventory()
+    chk.oblige("[gen] the absolute object count Nmin is consulted only where the models account for it "
+               "(empty-bin guard of the stellar-evolution field, the ejection shortcut, the summary views)", ninv == KNOWN_NMIN,
+               str({k: (ninv.get(k), KNOWN_NMIN.get(k)) for k in set(ninv) | set(KNOWN_NMIN) if ninv.get(k) != KNOWN_NMIN.get(k)}))
     chk.extra["literal_inventory"] = {k: {str(a): b for a, b in v.items()} for k, v in inv.items()}
     # ---- field-level scale pairs on the implementation ------------------------------------
     cars = F.carriers(4 if chk.tier == "quick" else None)
@@ -89,17 +111,18 @@ def run(chk):
             car.md = rng.choice([1.2, 0.5, 3.0])
             car._esc_norm = rng.choice(["N", "M"])
             car.tcc = rng.choice([0.0, 1e9])
-            rate = -10 ** rng.uniform(-1, 3)
+            rate = -10 ** rng.uniform(-3, 3)
             nf += 1
             case = dict(carrier=ci, t=t, lam=lam, norm=car._esc_norm, tcc=car.tcc, md=car.md, rate=rate, y=[float(v) for v in y])
             chk.note_distinct(case)
-            for name in ("sev", "esc"):
+            for name in ("sev", "esc", "total"):
                 outs = []
                 for yy, rr in ((y, rate), (y2, lam * rate)):
                     car.esc_rate = rr
                     car._time_dep_esc = False
                     try:
-                        d = car._derivs_sev(t, yy.copy()) if name == "sev" else car._derivs_esc(t, yy.copy())
+                        d = car._derivs_sev(t, yy.copy()) if name == "sev" else car._derivs_esc(t, yy.copy()) if name == "esc" else \
+                            car._derivs(t, yy.copy())
                     except ValueError:
                         d = None
                     outs.append(d)
@@ -115,7 +138,7 @@ def run(chk):
                     bad = ~(np.isclose(b, want, rtol=1e-9, atol=0) | (np.isnan(b) & np.isnan(want)) | ((b == 0) & (want == 0)))
                     if np.any(bad):
                         chk.fail("the %s derivative is homogeneous of degree one in (Ns, Nr, Mr, rate); slopes' derivative unchanged" % (
-                            "stellar-evolution" if name == "sev" else "escape"), case,
+                            "stellar-evolution" if name == "sev" else "escape" if name == "esc" else "total"), case,
                             dict(component=j, index=int(np.flatnonzero(bad)[0]), scaled=float(b[bad][0]), expected=float(want[bad][0])))
                         break
     chk.count("field-level scale pairs", nf)
@@ -141,7 +164,7 @@ def run(chk):
         base = dict(m_breaks=[0.1, 0.5, 1.0, 100], a_slopes=[-0.5, -1.3, -2.5], nbins=[3, 3, 10], FeH=rng.choice([-1.0, 0.0]),
                     tout=[rng.choice([3000.0, 9000.0, 12000.0])], esc_norm=rng.choice(["N", "M"]))
         N0 = 10 ** rng.uniform(4.7, 5.7)
-        rate = -rng.choice([5.0, 30.0]) * (N0 / 5e5)
+        rate = -rng.choice([5.0, 30.0, 0.4]) * (N0 / 5e5)
         cls = getattr(emf, cname)
         # the solver's tolerances are absolute (atol=1e-5): homogeneity of the RESULT holds to integrator accuracy only, so
         # both members of a pair are integrated with the tolerance tightened from outside (the equations are unchanged)
